@@ -220,3 +220,73 @@ func (p *Prog) FieldAccesses(pkg, typ, field string) []Site {
 	})
 	return out
 }
+
+// GormStructConds lists calls of gorm condition/update builders (Where, Or, Not, Updates, and the inline conditions of
+// First/Find/Take/Last/Delete) whose condition argument is a struct or a pointer to a struct: gorm builds the SQL
+// from the non-zero fields only, so a zero value ("" / 0 / false) silently drops the condition or the update.
+// It also returns the number of such builder calls with a string condition (control count).
+func (p *Prog) GormStructConds(pkgPrefixes ...string) (structSites []Site, stringConds int) {
+	isStructish := func(v ssa.Value) bool {
+		v = stripConv(v)
+		if mi, ok := v.(*ssa.MakeInterface); ok {
+			v = mi.X
+		}
+		t := v.Type()
+		if pt, ok := t.Underlying().(*types.Pointer); ok {
+			t = pt.Elem()
+		}
+		_, ok := t.Underlying().(*types.Struct)
+		return ok
+	}
+	p.EachInstr(func(fn *ssa.Function, in ssa.Instruction) {
+		ci, ok := in.(ssa.CallInstruction)
+		if !ok {
+			return
+		}
+		f := ci.Common().StaticCallee()
+		if f == nil || f.Pkg == nil || f.Pkg.Pkg.Path() != "gorm.io/gorm" || f.Signature.Recv() == nil {
+			return
+		}
+		in0 := false
+		for _, pre := range pkgPrefixes {
+			if fn.Pkg != nil && strings.HasPrefix(fn.Pkg.Pkg.Path(), ModPath+"/"+pre) {
+				in0 = true
+			}
+		}
+		if !in0 || p.FileClass(p.FuncPos(fn)) != "prod" {
+			return
+		}
+		args := ci.Common().Args[1:]
+		var cond ssa.Value
+		switch f.Name() {
+		case "Where", "Or", "Not":
+			if len(args) > 0 {
+				cond = args[0]
+			}
+		case "Updates":
+			if len(args) > 0 {
+				cond = args[0]
+			}
+		case "First", "Find", "Take", "Last", "Delete":
+			// inline conditions: variadic after the destination
+			if els := VariadicElems(ci); len(els) > 0 {
+				cond = els[0]
+			}
+		default:
+			return
+		}
+		if cond == nil {
+			return
+		}
+		if isStructish(cond) {
+			structSites = append(structSites, Site{Fn: fn, Instr: in, Pos: in.Pos(), Note: f.Name() + " with a struct condition/value"})
+		} else if _, ok := ConstString(stripConv(cond)); ok {
+			stringConds++
+		} else if mi, ok := stripConv(cond).(*ssa.MakeInterface); ok {
+			if _, ok := ConstString(mi.X); ok {
+				stringConds++
+			}
+		}
+	})
+	return
+}
